@@ -210,6 +210,7 @@ func TestVerifNodex(t *testing.T) {
 		res.Evaluations += st.Transitions
 		res.DistinctNontrivial += st.States
 		res.Extra["cfg:"+cfg.Name] = fmt.Sprintf("states=%d transitions=%d depth=%d fixpoint=%v", st.States, st.Transitions, st.Depth, st.Fixpoint)
+		res.Extra["bounds:"+cfg.Name] = verifkit.NonZeroFields(cfg)
 	}
 }
 
